@@ -247,6 +247,52 @@ func sideWorlds(run *lib.Run, hb *lib.Heartbeat) {
 		up.Close()
 		run.Floor("side_edge_connects", int64(n*8/10))
 	}
+	// (4) a rate-limited listener whose clients walk away in the middle of a download: the write
+	// towards them fails, the exchange ends, the connection is released
+	if run.Want(base + 3) {
+		run.Case(base+3, "side|rate-limited-listener-clients-abort", nil)
+		big := make([]byte, 2<<20)
+		origin := lib.MustOrigin("O4", "127.0.0.1:0", nil, func(oc *lib.OConn, req *lib.Msg) lib.Action {
+			oc.Write(lib.SimpleResponse(200, "OK", []lib.Field{{"X-Vid", req.Get1("X-Vid")}}, big))
+			return lib.Continue
+		})
+		p := lib.MustProxy(lib.ProxyOpts{
+			Cfg: func(cfg *forwarder.HTTPProxyConfig) { cfg.ReadLimit = 1 << 30 },
+			Transport: func(tc *forwarder.HTTPTransportConfig) {
+				tc.RedirectFunc = func(network, address string) (string, string) { return network, origin.Addr }
+			},
+		})
+		for round := 0; round < 2; round++ {
+			var wg sync.WaitGroup
+			for i := 0; i < 8; i++ {
+				wg.Add(1)
+				go func(i int) {
+					defer wg.Done()
+					c, err := net.DialTimeout("tcp", p.Addr, 5*time.Second)
+					if err != nil {
+						run.Inconclusive("dial")
+						return
+					}
+					fmt.Fprintf(c, "GET http://side4.test/big HTTP/1.1\r\nHost: side4.test\r\nX-Vid: ab%d\r\n\r\n", i)
+					buf := make([]byte, 16<<10)
+					c.SetReadDeadline(time.Now().Add(10 * time.Second))
+					if _, err := io.ReadFull(c, buf); err == nil {
+						run.Count("side_aborted_downloads", 1)
+					}
+					if i%2 == 0 {
+						lib.ResetConn(c)
+					} else {
+						c.Close()
+					}
+				}(i)
+			}
+			wg.Wait()
+			quiesce(p, base+3, "rate-limited-listener-clients-abort")
+		}
+		p.Stop()
+		origin.Close()
+		run.Floor("side_aborted_downloads", 12)
+	}
 	run.Floor("side_quiescent_points", 4)
 	run.Floor("side_connects_checked", 30)
 	run.Floor("side_pp_closed_by_proxy", 20)
